@@ -89,7 +89,8 @@ def gen_cases(tier, seed):
                 cid = "status-near:%r-%s-%s" % (top, second, assertion)
                 cases.append({"id": cid, "sig": ["status-near", top, second, assertion], "kind": "status", "top": top, "second": second, "msg": 0, "assertion": assertion})
     for v in VERSIONS:
-        for target in ("response", "authn_request", "logout_request", "assertion"):
+        # (logout_request:expiring / :with-reason: requests made with the optional arguments of create_logout_request)
+        for target in ("response", "authn_request", "logout_request", "logout_request:expiring", "logout_request:with-reason-and-sessions", "assertion"):
             cases.append({"id": "version-%s-%r" % (target, v), "sig": ["version", target, v], "kind": "version", "target": target, "version": v})
     return cases
 
@@ -189,7 +190,13 @@ def run_case(case, ctx):
             binding = BINDING_HTTP_REDIRECT
         else:
             from saml2_tophat.saml import NameID, NAMEID_FORMAT_TRANSIENT
-            rid, req = sp.create_logout_request(fed.SLO_IDP + "/post", fed.IDP_EID, name_id=NameID(format=NAMEID_FORMAT_TRANSIENT, text="abc"))
+            lkw = {}
+            if target.endswith(":expiring"):
+                from saml2_tophat.time_util import in_a_while
+                lkw = {"expire": in_a_while(minutes=10)}
+            elif ":" in target:
+                lkw = {"reason": "urn:oasis:names:tc:SAML:2.0:logout:user", "session_indexes": ["s1", "s2"]}
+            rid, req = sp.create_logout_request(fed.SLO_IDP + "/post", fed.IDP_EID, name_id=NameID(format=NAMEID_FORMAT_TRANSIENT, text="abc"), **lkw)
             binding = BINDING_HTTP_POST
         d = xk.Doc("%s" % req)
         doc = d.set_attr(d.root, "Version", None if v == "<absent>" else v).text()
